@@ -579,18 +579,20 @@ def run_chunk(job: dict[str, Any]) -> list[dict[str, Any]]:
                     mode, pos = "truncate", job["offsets"][i] % (len(base) + 1)
                 else:
                     pos = rng.randrange(len(base) + 1)
+                # the mutation as data: base[:pos] + ins + base[pos + dele:]  (so a stored case can be rebuilt on other segments)
                 if mode == "truncate":
-                    data = base[:pos]
+                    dele, ins = len(base) - pos, b""
                 elif mode == "flip":
                     pos = min(pos, len(base) - 1)
-                    data = base[:pos] + bytes([base[pos] ^ (1 << rng.randrange(8))]) + base[pos + 1:]
+                    dele, ins = 1, bytes([base[pos] ^ (1 << rng.randrange(8))])
                 elif mode == "overwrite":
-                    junk = bytes(rng.randrange(256) for _ in range(rng.choice([1, 4, 8])))
-                    data = base[:pos] + junk + base[pos + len(junk):]
+                    ins = bytes(rng.randrange(256) for _ in range(rng.choice([1, 4, 8])))
+                    dele = len(ins)
                 else:
-                    data = base + bytes(rng.randrange(256) for _ in range(rng.choice([1, 8, 40])))
+                    pos, dele, ins = len(base), 0, bytes(rng.randrange(256) for _ in range(rng.choice([1, 8, 40])))
+                data = base[:pos] + ins + base[pos + dele:]
                 half_close = True
-                desc = {"kind": "corrupt", "d": d, "mode": mode, "pos": pos}
+                desc = {"kind": "corrupt", "d": d, "mode": mode, "pos": pos, "del": dele, "ins": ins.hex()}
             uses_shm = b"vgi_rpc.shm_segment_name" in data
             # a connection is reused while it keeps serving (so "the next call is unaffected" is exercised for real); requests
             # that may leave a cached segment on the connection, version-gated servers and half-closing probes get their own
@@ -639,6 +641,8 @@ def run_drained(job: dict[str, Any]) -> list[dict[str, Any]]:
         seg = segs["real"]
         known = [o for o, _ in seg._allocator._read_allocs()]
         combos = [(a, b) for a in DRAIN_OFFSETS for b in (None, *DRAIN_OFFSETS[:4])] if job.get("all") else None
+        if job.get("fixed") is not None:
+            combos = [tuple(x) for x in job["fixed"]]
         for i in range(len(combos) if combos else job["n"]):
             offs = list(combos[i]) if combos else [rng.choice(DRAIN_OFFSETS) for _ in range(rng.choice([1, 1, 2, 3]))]
             offs = [o for o in offs if o is not None]
@@ -857,6 +861,11 @@ def run(ctx: Any) -> None:
     for recs in results:
         for rec in recs:
             if rec["desc"]["kind"] == "drained":
+                if rec["obs"]["outcome"] == "hang":
+                    # a miss of the deadline may be CPU starvation of the worker: confirm alone, with a long deadline
+                    ctx.tag("rerun-after-deadline")
+                    again = run_drained({"seed": 11, "n": 0, "fixed": [rec["desc"]["d"]["offsets"]], "deadline": 30.0})
+                    rec = again[0] if again else rec
                 judge_drained(ctx, rec)
                 continue
             if rec["obs"]["outcome"] == "hang":
@@ -874,15 +883,20 @@ def reprobe(case: dict[str, Any], deadline: float) -> dict[str, Any]:
     segs = make_segments()
     try:
         d = case["desc"]["d"]
-        if case.get("hex") and b"vgi_rpc.shm_segment_name" not in bytes.fromhex(case["hex"]):
+        if case["desc"]["kind"] == "request":
+            data = build(d, segs)          # deterministic from the description; segment names / offsets are this process's
+        elif "ins" in case["desc"]:
+            base = build(d, segs)
+            pos, dele, ins = case["desc"]["pos"], case["desc"]["del"], bytes.fromhex(case["desc"]["ins"])
+            data = base[:pos] + ins + base[pos + dele:]
+        elif case.get("hex"):
             data = bytes.fromhex(case["hex"])
-        elif case["desc"]["kind"] == "request":
-            data = build(d, segs)
         else:
-            raise RuntimeError("corrupted shm request cannot be rebuilt exactly")
+            raise RuntimeError("case cannot be rebuilt")
         half = case["desc"]["kind"] == "corrupt"
-        rq0 = abstract(data, None, case.get("version"))
-        p = Probe(case.get("transport", "pipe"), case.get("version"))
+        tr = case.get("transport", "pipe")
+        rq0 = abstract(data, segs["real"] if tr == "shm" else None, case.get("version"))
+        p = Probe(tr, case.get("version"), shm=segs["real"])
         r = p.send(data, half_close=half, deadline=deadline)
         p.close()
         return {"desc": case["desc"], "transport": case.get("transport", "pipe"), "version": case.get("version"), "hex": case.get("hex"),
@@ -899,8 +913,7 @@ def replay(ctx: Any, case: dict[str, Any] | None) -> None:
         return
     if case["desc"]["kind"] == "drained":
         # offsets refer to the worker's own segment: re-run the exhaustive small set (it contains every offset class)
-        for rec in run_drained({"seed": 7, "n": 0, "all": True, "deadline": 10.0}):
-            if rec["desc"]["d"]["offsets"] == case["desc"]["d"]["offsets"]:
-                judge_drained(ctx, rec)
+        for rec in run_drained({"seed": 7, "n": 0, "fixed": [case["desc"]["d"]["offsets"]], "deadline": 30.0}):
+            judge_drained(ctx, rec)
         return
     judge(ctx, reprobe(case, 10.0))
